@@ -179,6 +179,25 @@ def _base_skeletons():
     )
     out.append(
         Skel(
+            "two-restricted-states-crossed-filters",
+            2,
+            # canonical order zone, age, move differs from the alphabetical order age, move, zone, and the
+            # first filter mentions the later-declared state first
+            [("zone", D2), ("age", D3), ("wealth", "lin")],
+            [("move", D2), ("consumption", "lin")],
+            [
+                ("utility", ["consumption", "move", "zone", "age", "wealth", "eta"], "utility"),
+                ("next_zone", ["zone", "move"], "next"),
+                ("next_age", ["age"], "next"),
+                ("next_wealth", ["wealth", "consumption", "eta"], "next"),
+                ("age_filter", ["move", "age"], "filter"),
+                ("zone_filter", ["zone", "move", "_period"], "filter"),
+                ("budget_constraint", ["consumption", "wealth"], "constraint"),
+            ],
+        )
+    )
+    out.append(
+        Skel(
             "discrete-choices-only",
             2,
             [("stock", "lin")],
